@@ -549,6 +549,20 @@ Plan plan_C07(Rng& r, const std::string&) {
 				else sel = r.below(100) < 90 ? 4 + long(r.below(4)) : long(r.below(N_SEL));
 				g.out.push_back(gen::mk(c, "bdd_incl", {bu ? abu : atd, bu ? bbu : btd, sel, bu, long(bu && r.chance(1, 10) ? 2 : r.below(2))}));
 			}
+			if (r.chance(1, 5)) {
+				// an operand that is the RESULT of an earlier operation (union, intersection, trimming, conversion), not a freshly loaded automaton
+				bool bu = r.chance(1, 2); int& n = bu ? g.nbu : g.ntd; int pa = bu ? abu : atd, pb = bu ? bbu : btd, x = n;
+				switch (r.below(4)) {
+					case 0: g.out.push_back(gen::mk(c, "bdd_binary", {pa, pb, 0, bu, long(r.below(2))})); break;
+					case 1: g.out.push_back(gen::mk(c, "bdd_binary", {pa, pb, 2, bu, long(r.below(2))})); break;
+					case 2: g.out.push_back(gen::mk(c, "bdd_trim", {r.chance(1, 2) ? pa : pb, long(r.below(2)), bu})); break;
+					default: if (!bu) { g.out.push_back(gen::mk(c, "bdd_to_td", {r.chance(1, 2) ? abu : bbu})); } else g.out.push_back(gen::mk(c, "bdd_trim", {pb, 1, bu})); break;
+				}
+				++n;
+				long sel = bu ? (r.chance(1, 2) ? 0 : 5) : 4 + long(r.below(4));
+				g.out.push_back(gen::mk(c, "bdd_incl", {x, r.chance(1, 2) ? pb : pa, sel, bu, long(r.below(2))}));
+				g.out.push_back(gen::mk(c, "bdd_incl", {r.chance(1, 2) ? pa : pb, x, bu ? (r.chance(1, 2) ? 0 : 5) : 4 + long(r.below(4)), bu, long(r.below(2))}));
+			}
 			if (r.chance(1, 5)) g.out.push_back(sym_episode_step(r, c, pool, r.range(1, 4)));      // the same questions on automata whose symbols are sets of codes (patterns with don't-cares)
 			if (r.chance(1, 5)) {
 				// one operand OBJECT gets another value (a near relative is copy-assigned over it) and the question is asked again
